@@ -39,8 +39,9 @@ class Traced(object):
     vs = {}
     for vname, sym in (var_syms or {}).items():
       vs[vname] = sym
-    (self.out,), self.val = self.it.run(self.cf, [self.X], var_syms=vs)
-    self.out = self.it.lift(self.out)
+    outs, self.val = self.it.run(self.cf, [self.X], var_syms=vs)
+    self.outputs = [self.it.lift(o) for o in outs]
+    self.out = self.outputs[0]
 
   def tensor(self, t):
     """value of a graph tensor captured during tracing (e.g. q.scale)"""
@@ -169,3 +170,9 @@ def validate_pow2_contract():
     if not evalr.same(v, want):
       bad += 1
   return bad, len(es)
+
+
+def set_learning_phase(phase):
+  """K.learning_phase does not exist under the pinned Keras 3: environment stub (0 = inference, 1 = training)."""
+  import tensorflow.keras.backend as K
+  K.learning_phase = lambda: int(phase)
